@@ -42,6 +42,11 @@ def gen_cases(tier, seed):
                 cfg["encoder"] = bool(i % 3)
                 cfg["ctx"] = 2 if cfg["encoder"] else int(np.prod(shape)) * (2 if kind == "cond_diag" else 1)
             cases.append({"kind": "dist", "cfg": cfg, "seed": env.subseed(seed, "c05", kind, i), "world": "f64", "cost": 2})
+    # identity encoder with the context in the layout of the event ([rows, *event[:-1], 2 * event[-1]] for the normal)
+    for i, (kind, shape) in enumerate((("cond_diag", [2, 3]), ("cond_diag", [2, 1, 2]), ("bernoulli", [2, 2]), ("cond_diag", [3, 2]))):
+        cases.append({"kind": "dist", "cfg": {"dist": kind, "shape": shape, "encoder": False, "ctx_layout": "structured",
+                                              "ctx": int(np.prod(shape)) * (2 if kind == "cond_diag" else 1)},
+                      "seed": env.subseed(seed, "c05lay", i), "world": "f64", "cost": 2})
     # saturated logits handed straight to the Bernoulli (identity encoder): sigmoid(l) rounds to exactly 1 beyond 16.6 in
     # float32 / 36.7 in float64, where formulas through the probability (x log p + (1-x) log(1-p)) produce 0 * -inf
     for i, (world, sc) in enumerate((("f32", 30.0), ("f64", 80.0), ("f32", 60.0), ("f64", 30.0))):
